@@ -245,32 +245,52 @@ def clear_to_marker(ctx):
     key, pcs = nfq.cells(ctx, TB, "TreeBuilder<Handle,Sink>::clear_active_formatting_to_marker")
     bad = None
     seen = set()
+    ALL = {"None", "Marker", "Element"}
+
+    def states(alt):
+        alt = alt.strip()
+        if alt == "None":
+            return {"None"}
+        if alt in ("Some(_)",):
+            return {"Marker", "Element"}
+        if "Marker" in alt:
+            return {"Marker"}
+        if "Element" in alt:
+            return {"Element"}
+        if alt == "_":
+            return set(ALL)
+        return set()
     for pc in nfq.feasible(pcs):
         names = [a for a, _ in _acts(pc)]
         pops = [a for a in names if a == "self.active_formatting.pop"]
         if len(pops) != 1:
             bad = "an iteration pops %d entries" % len(pops)
-        stop = None
+        S = set(ALL)
+        looked = False
         for k, v in pc["guards"].items():
-            m = re.match(r"self\.active_formatting\.pop\(\) matches (.*)$", re.sub(r"#\d+$", "", k))
-            if m:
-                alts = set(m.group(1).split("|"))
-                if alts == {"None", "Some(Marker)"}:
-                    stop = v
-                elif alts == {"Some(Marker)"} or alts == {"None"}:
-                    stop = True if v else stop
-                elif alts == {"Some(Element(_,_))"} or alts == {"Some(_)"}:
-                    stop = (not v) if stop is None else stop
-        if stop is None:
+            m = re.match(r"self\.active_formatting\.pop\(\)(\.0)? matches (.*)$", re.sub(r"#\d+$", "", k))
+            if not m:
+                continue
+            looked = True
+            A = set()
+            for alt in m.group(2).split("|"):
+                A |= states(alt)
+            if m.group(1):
+                A -= {"None"}
+                S -= {"None"} if True else set()
+            S = S & A if v else S - A
+        if not looked or not S:
             bad = "the popped entry is not examined"
-        elif stop:
+        elif S <= {"None", "Marker"}:
             seen.add("stop")
             if _loop_exit(pc) != "break":
                 bad = "popping goes on past the marker"
-        else:
+        elif S == {"Element"}:
             seen.add("go")
             if _loop_exit(pc) != "end":
                 bad = "popping stops at an element entry: entries of the enclosing scope stay on the list"
+        else:
+            bad = "one path covers both a marker and an element entry (%s)" % sorted(S)
     ctx.ob(RULE, "clear-active-formatting-to-marker", bad is None and seen == {"stop", "go"}, bad or "pops through the last marker, inclusive", "html5ever tree_builder clear_active_formatting_to_marker")
 
 
@@ -505,7 +525,101 @@ def marker_bounded(ctx):
     ctx.ob(RULE, "misnested-a", bad is None and k >= 2, bad or "error, adoption agency, entry removed if still listed, element removed from the stack", "html5ever tree_builder handle_misnested_a_tags")
 
 
-FACTS = (marker_bounded, in_scope, implied_end_tags, pop_until, appropriate_place, any_other_end_tag, clear_to_marker, close_the_cell, reconstruct, adoption_bailouts)
+def adoption_inner_loop(ctx):
+    """adoption agency, the inner loop (steps 4.13.x): node climbs the stack one position per iteration; reaching the formatting
+    element ends the loop; after three iterations a node that is still listed is taken off the list; a node that is not (or no
+    longer) listed is removed from the stack and nothing else; otherwise a new element is created for the node's entry
+    (HTML namespace, the entry's name / attributes / flag), put in the node's place in BOTH the list and the stack, the last node
+    is moved under it, and it becomes the last node; the bookmark moves behind it only when the last node was the furthest block"""
+    key, pcs = nfq.cells(ctx, TB, "TreeBuilder<Handle,Sink>::adoption_agency")
+    bad = None
+    seen = set()
+    for pc in nfq.feasible(pcs):
+        acts = _acts(pc)
+        names = [a for a, _ in acts]
+        if "loop-begin loop" not in names:
+            continue
+        i = names.index("loop-begin loop")
+        ends = [k for k in range(i + 1, len(acts)) if acts[k][0] == "loop-end"]
+        if not ends:
+            continue
+        inner = acts[i + 1:ends[0] + 1]
+        inames = [a for a, _ in inner]
+        if "panic!" in inames:
+            continue
+        sn = [args for a, args in inner if a == "self.sink.same_node"]
+        if not sn:
+            bad = "an iteration of the inner loop does not compare node with the formatting element"
+            continue
+        node = sn[0][0]
+        m = re.fullmatch(r"self\.open_elems\[\((.*) - 1\)\]", node)
+        if not m:
+            bad = "node is %s, not the element one position above the previous node in the stack" % node[:60]
+            continue
+        idx = "(%s - 1)" % m.group(1)
+        end = inner[-1][1]
+        is_fmt = [v for g, v in pc["guards"].items() if g.startswith("self.sink.same_node(%s," % node)]
+        if is_fmt and is_fmt[0]:
+            seen.add("reached")
+            if end[0] != "break" or len(inner) != 2:
+                bad = "node is the formatting element but the loop does %s" % inames
+            continue
+        if end[0] not in ("end", "continue"):
+            bad = "the inner loop is left (%s) before node reached the formatting element" % end[0]
+            continue
+        carried = end[1:]
+        if idx not in carried:
+            bad = "the position carried into the next iteration is not node's (%s)" % (carried,)
+        over = [v for g, v in pc["guards"].items() if re.fullmatch(r"\(\d+ < \(φ\(0\) \+ 1\)\)(#\d+)?", g)]
+        listed = [v for g, v in pc["guards"].items() if g.startswith("self.position_in_active_formatting(%s) matches Some(_)" % node)]
+        muts = [(a, args) for a, args in inner if a in ("self.active_formatting.remove", "self.open_elems.remove", "call create_element_with_flags", "self.sink.append", "self.sink.remove_from_parent") or a.startswith("assign self.")]
+        mn = [a for a, _ in muts]
+        pos = "self.position_in_active_formatting(%s).0" % node
+        if over and over[0]:
+            want = (["self.active_formatting.remove"] if listed and listed[0] else []) + ["self.open_elems.remove"]
+            seen.add("over-three")
+            if not listed:
+                bad = "more than three iterations: node is removed from the stack without asking whether it is still in the list of active formatting elements (it must be taken off the list too)"
+            if mn != want or (listed and listed[0] and muts[0][1] != (pos,)) or muts[-1][1] != (idx,):
+                bad = "more than three iterations: steps %s %s; the standard: remove node from the list if it is there, then from the stack" % (mn, [x[1] for x in muts][:2])
+        elif listed and listed[0] is False:
+            seen.add("not-listed")
+            if mn != ["self.open_elems.remove"] or muts[0][1] != (idx,):
+                bad = "node not in the list: steps %s; the standard removes it from the stack and goes on" % mn
+        elif listed and listed[0]:
+            seen.add("replace")
+            entry = "self.active_formatting[%s]" % pos
+            ce = [args for a, args in muts if a == "call create_element_with_flags"]
+            if len(ce) != 1 or len(ce[0]) < 4 or ce[0][0] != "self.sink" or ce[0][1] != "new(None,atom:http://www.w3.org/1999/xhtml,%s.1.name)" % entry or ce[0][2] != entry + ".1.attrs" or ce[0][3] != entry + ".1.had_duplicate_attributes":
+                bad = "the replacement element is not created from node's own entry (HTML namespace, its name, attributes, duplicate flag): %s" % (ce[:1],)
+                continue
+            new = "create_element_with_flags(%s)" % ",".join(ce[0])
+            asg = {a: args for a, args in muts if a.startswith("assign self.")}
+            if not any(a.startswith("assign self.open_elems[") and args == (new,) for a, args in asg.items()):
+                bad = "the new element does not take node's place in the stack of open elements"
+            if not any(a.startswith("assign self.active_formatting[") and args == ("Element(%s,%s.1)" % (new, entry),) for a, args in asg.items()):
+                bad = "the new element does not take node's place in the list of active formatting elements (with the same token)"
+            ap = [args for a, args in muts if a == "self.sink.append"]
+            rp = [args for a, args in muts if a == "self.sink.remove_from_parent"]
+            if len(ap) != 1 or ap[0][0] != new or not re.fullmatch(r"AppendNode\((.*)\)", ap[0][1]):
+                bad = "the last node is not appended to the new element (%s)" % (ap[:1],)
+            else:
+                last = re.fullmatch(r"AppendNode\((.*)\)", ap[0][1]).group(1)
+                if rp != [(last,)] or mn.index("self.sink.remove_from_parent") > mn.index("self.sink.append"):
+                    bad = "the last node is not taken out of its parent before it is appended to the new element"
+                if carried.count(new) < 2:
+                    bad = bad or "after the replacement node / last node are not both the new element (%s)" % (carried,)
+                bm = [v for g, v in pc["guards"].items() if g.startswith("self.sink.same_node(%s," % last)]
+                moved = any(c == "InsertAfter(%s)" % new for c in carried)
+                if moved and not bm:
+                    bad = "the bookmark moves behind the new element without the last node having been compared with the furthest block"
+                if bm and bm[-1] != moved:
+                    bad = "the bookmark %s although the last node %s the furthest block" % ("moves" if moved else "stays", "is" if bm[-1] else "is not")
+    ctx.ob(RULE, "adoption-agency-inner-loop", bad is None and {"reached", "over-three", "not-listed", "replace"} <= seen, bad or "climb by one; stop at the formatting element; > 3: unlist + unstack; unlisted: unstack; else replace in list and stack, move last node under it, bookmark behind it only for the furthest block",
+           "html5ever tree_builder adoption_agency")
+
+
+FACTS = (adoption_inner_loop, marker_bounded, in_scope, implied_end_tags, pop_until, appropriate_place, any_other_end_tag, clear_to_marker, close_the_cell, reconstruct, adoption_bailouts)
 
 
 def run(ctx):
